@@ -637,13 +637,9 @@ func CheckpointHsetsSameKey(c *core.Ctx, rule string) {
 	if fn == nil {
 		return
 	}
-	info := fn.Pkg.TypesInfo
 	n := 0
-	ast.Inspect(fn.Decl.Body, func(nd ast.Node) bool {
-		call, ok := nd.(*ast.CallExpr)
-		if !ok {
-			return true
-		}
+	fe := flow.New(c.Program)
+	visit := func(info *types.Info, call *ast.CallExpr) {
 		// Send("hset", key, ...) directly or through a forwarding helper that takes
 		// the command name as one of its arguments: the key follows the name
 		ci := -1
@@ -654,18 +650,32 @@ func CheckpointHsetsSameKey(c *core.Ctx, rule string) {
 			}
 		}
 		if ci < 0 || ci+2 >= len(call.Args) {
-			return true
+			return
 		}
-		if _, isConv := info.Types[call.Fun]; isConv && info.Types[call.Fun].IsType() {
-			return true
+		if tv, isConv := info.Types[call.Fun]; isConv && tv.IsType() {
+			return
 		}
 		n++
 		key := call.Args[ci+1]
 		ok2 := pat.Expr("_ds.checkpointName").Match(info, key, nil) != nil
 		c.Check(rule, fmt.Sprintf("sendFunc/hset#%d/key", n), call.Pos(), ok2,
 			fmt.Sprintf("checkpoint HSET writes into `%s`; all checkpoint fields must go into ds.checkpointName, the hash LoadCheckpoint reads (for a cluster shard it carries a slot suffix): a field written elsewhere is not read back, e.g. the version is read as 0 and the checkpoint refused", c.Src(key)))
-		return true
-	})
+	}
+	// the sender, its function literals, and the dbSync helpers they call
+	seenCall := map[*ast.CallExpr]bool{}
+	var roots []*cfgq.Graph
+	roots = append(roots, cfgq.Of(c.Program, fn))
+	for _, lit := range core.FuncLits(fn.Decl.Body) {
+		roots = append(roots, cfgq.OfLit(c.Program, fn.Pkg.TypesInfo, lit))
+	}
+	for _, g := range roots {
+		fe.Walk(g, g.Body, func(s flow.Site, nd ast.Node) {
+			if call, ok := nd.(*ast.CallExpr); ok && !seenCall[call] {
+				seenCall[call] = true
+				visit(s.G.Info, call)
+			}
+		})
+	}
 	if n < 3 {
 		c.Undecidedf(rule, "sendFunc/hsets", fn.Decl.Pos(), "expected three checkpoint HSETs, found %d", n)
 	}
@@ -845,7 +855,74 @@ func FreshSlaves(c *core.Ctx, rule string) {
 		return
 	}
 	info := pk.TypesInfo
-	copies, appends := 0, 0
+	fe := flow.New(c.Program)
+	analysed := 0
+	msg := "the replica list of the new topology shares its backing array with the supervisor's own s.slot.Slaves (no fresh []string{}/make/nil before this append): the appends of an attempt overwrite the supervisor's list of known nodes and a retry probes the wrong hosts (a node is lost, the master may never be probed)"
+	// where does a slice value come from: "fresh", "alias" (the supervisor's list), "?"
+	var origin func(s flow.Site, x ast.Expr, chain []*ast.CallExpr) string
+	origin = func(s flow.Site, x ast.Expr, chain []*ast.CallExpr) string {
+		if len(chain) > 8 {
+			return "?"
+		}
+		res := "fresh"
+		merge := func(o string) {
+			if o == "alias" || res == "alias" {
+				res = "alias"
+			} else if o == "?" {
+				res = "?"
+			}
+		}
+		for _, cs := range fe.Values(s, x) {
+			switch {
+			case cs.Unknown != "":
+				merge("?")
+				continue
+			case cs.Zero:
+				continue
+			}
+			v := ast.Unparen(cs.Expr)
+			for {
+				if sl, ok := v.(*ast.SliceExpr); ok { // a re-slice shares the array
+					v = ast.Unparen(sl.X)
+					continue
+				}
+				break
+			}
+			switch y := v.(type) {
+			case *ast.CompositeLit:
+			case *ast.Ident:
+				if !core.IsNil(info, y) {
+					merge("?")
+				}
+			case *ast.SelectorExpr:
+				if pat.Expr("_s.slot.Slaves").Match(info, y, nil) != nil {
+					merge("alias")
+				} else {
+					merge("?")
+				}
+			case *ast.CallExpr:
+				bi, isB := core.Callee(info, y).(*types.Builtin)
+				switch {
+				case isB && bi.Name() == "make":
+				case isB && bi.Name() == "append" && cs.Call != nil && len(cs.Call.Args) > 0 && len(cs.Sites) > 0:
+					again := false
+					for _, c0 := range chain {
+						if c0 == cs.Call {
+							again = true
+						}
+					}
+					if !again {
+						merge(origin(cs.Sites[0], cs.Call.Args[0], append(chain, cs.Call)))
+					}
+				default:
+					merge("?")
+				}
+			default:
+				merge("?")
+			}
+		}
+		return res
+	}
 	for _, f := range pk.Syntax {
 		if core.IsTestFile(c.Fset, f) {
 			continue
@@ -860,55 +937,76 @@ func FreshSlaves(c *core.Ctx, rule string) {
 			if fn == nil {
 				continue
 			}
-			// the local copy of the supervisor's topology: `newSlot := s.slot`
+			g := cfgq.Of(c.Program, fn)
+			// copies of the supervisor's topology in this function
+			var copies []pat.Binds
 			for _, cp := range pat.Stmt("_new = _s.slot").FindAll(info, fd.Body, nil) {
 				b := pat.Stmt("_new = _s.slot").Match(info, cp, nil)
-				if _, isId := ast.Unparen(b["_new"].(ast.Expr)).(*ast.Ident); !isId {
-					continue
+				if _, isId := ast.Unparen(b["_new"].(ast.Expr)).(*ast.Ident); isId {
+					copies = append(copies, b)
 				}
-				copies++
-				g := cfgq.Of(c.Program, fn)
-				isFreshReset := func(n ast.Node) bool {
-					as, ok := n.(*ast.AssignStmt)
-					if !ok || len(as.Lhs) != 1 || len(as.Rhs) != 1 || pat.Expr("_new.Slaves").Match(info, as.Lhs[0], b) == nil {
-						return false
-					}
-					switch x := ast.Unparen(as.Rhs[0]).(type) {
-					case *ast.CompositeLit:
+			}
+			for _, p := range g.Points(func(n ast.Node) bool { return true }) {
+				core.Inspect(p.Node(), func(m ast.Node) bool {
+					call, ok := m.(*ast.CallExpr)
+					if !ok || len(call.Args) == 0 {
 						return true
-					case *ast.CallExpr:
-						bi, ok := core.Callee(info, x).(*types.Builtin)
-						return ok && bi.Name() == "make"
-					case *ast.Ident:
-						return core.IsNil(info, x)
 					}
-					return false
-				}
-				// every append to the copy's Slaves needs a fresh list first
-				for _, p := range g.Points(func(n ast.Node) bool {
-					hit := false
-					core.Inspect(n, func(m ast.Node) bool {
-						if call, ok := m.(*ast.CallExpr); ok && len(call.Args) > 0 {
-							if bi, ok := core.Callee(info, call).(*types.Builtin); ok && bi.Name() == "append" && pat.Expr("_new.Slaves").Match(info, call.Args[0], b) != nil {
-								hit = true
+					if bi, ok := core.Callee(info, call).(*types.Builtin); !ok || bi.Name() != "append" {
+						return true
+					}
+					if t := info.TypeOf(call); t == nil || t.String() != "[]string" {
+						return true
+					}
+					first := ast.Unparen(call.Args[0])
+					// append(copy.Slaves, ...): the copy's field must have been given a fresh list first
+					for _, b := range copies {
+						if pat.Expr("_new.Slaves").Match(info, first, b) != nil {
+							analysed++
+							isFreshReset := func(n ast.Node) bool {
+								as, ok := n.(*ast.AssignStmt)
+								if !ok || len(as.Lhs) != 1 || len(as.Rhs) != 1 || pat.Expr("_new.Slaves").Match(info, as.Lhs[0], b) == nil {
+									return false
+								}
+								pt, _ := g.Find(as)
+								return origin(flow.Site{G: g, At: pt}, as.Rhs[0], nil) == "fresh"
 							}
+							okD, w := g.Dominated(p, isFreshReset)
+							c.Check(rule, fd.Name.Name+"/fresh-slaves", call.Pos(), okD, msg, w...)
+							return true
 						}
-						return !hit
-					})
-					return hit
-				}) {
-					appends++
-					ok, w := g.Dominated(p, isFreshReset)
-					c.Check(rule, fd.Name.Name+"/fresh-slaves", p.Node().Pos(), ok,
-						"the copied topology keeps the supervisor's own Slaves slice (no `copy.Slaves = []string{}`/make/nil before this append): a re-slice or the copied field shares the backing array with s.slot.Slaves, so the appends of an attempt overwrite the supervisor's list of known nodes and a retry probes the wrong hosts (a node is lost, the master may never be probed)", w...)
-				}
+					}
+					// append(local, ...) feeding the new topology's Slaves
+					if id, isId := first.(*ast.Ident); isId && fe != nil {
+						feeds := false
+						core.Inspect(fd.Body, func(k ast.Node) bool {
+							if as, ok := k.(*ast.AssignStmt); ok && len(as.Lhs) == 1 && len(as.Rhs) == 1 {
+								if sel, ok := ast.Unparen(as.Lhs[0]).(*ast.SelectorExpr); ok && sel.Sel.Name == "Slaves" && pat.Same(info, as.Rhs[0], id) {
+									feeds = true
+								}
+							}
+							return true
+						})
+						if !feeds {
+							return true
+						}
+						analysed++
+						switch origin(flow.Site{G: g, At: p}, id, []*ast.CallExpr{call}) {
+						case "alias":
+							c.Check(rule, fd.Name.Name+"/fresh-slaves", call.Pos(), false, msg)
+						case "?":
+							c.Undecidedf(rule, fd.Name.Name+"/fresh-slaves", call.Pos(), "cannot tell where the slice `%s` that becomes the new replica list comes from", id.Name)
+						default:
+							c.Okf(rule, fd.Name.Name+"/fresh-slaves", call.Pos(), "the new replica list starts from a fresh slice")
+						}
+					}
+					return true
+				})
 			}
 		}
 	}
-	if copies == 0 {
-		c.Undecidedf(rule, "recursiveGetSlotState/copy", token.NoPos, "no local copy of s.slot found in package slotsupervisor")
-	} else if appends == 0 {
-		c.Undecidedf(rule, "recursiveGetSlotState/appends", token.NoPos, "the copy of s.slot is never appended to: the rule does not recognise how the replica list is rebuilt")
+	if analysed == 0 {
+		c.Undecidedf(rule, "recursiveGetSlotState/appends", token.NoPos, "no append that builds the new topology's replica list was recognised in package slotsupervisor")
 	}
 }
 
